@@ -25,10 +25,10 @@ PROPS["C16"] = dict(
   jobs=[
     # longest queries first (scheduling)
     dict(name="c16-perm-hex2", harness="C16_hex.cpp", entries=["harness_c16_perm"], units=HEXU, unwind=150, checks="none", object_bits=13,
-         shards={"quick": [{0: 1, 1: 0, 2: 8 * r + h, 3: 2} for r in (0, 2, 4) for h in (0, 1)],
+         shards={"quick": [{0: 1, 1: 0, 2: 16 * r + t, 3: 1} for r in (0, 2, 4) for t in range(4)],
                  "thorough": [{0: 1, 1: 0, 2: ch, 3: 4} for ch in range(24)]},
          timeout={"quick": 400, "thorough": 1200}, mem_gb=5,
-         bounds="second hexahedron of the two-hex base (first cell present, shared face pre-exists with the other halfface in use): add_cell(permuted list, true); quick: rotations 0,2,4 x "
+         bounds="second hexahedron of the two-hex base (first cell present, shared face pre-exists with the other halfface in use): add_cell(permuted list, true), first cell added without check from a list in convention order; quick (1 permutation per query, fixed by the shard): rotations 0,2,4 x "
                 "{identity,(0 1),(0 2),(2 3)} (12 permutations), thorough: 6 rotations x 16 (identity + all 15 transpositions) = 96; same assertions as c16-perm-hex for the new cell"),
     # (4) add_cell(8 vertices)
     dict(name="c16-verts", harness="C16_hex.cpp", entries=["harness_c16_verts"], units=HEXU, unwind=150, checks="none", object_bits=13,
@@ -41,10 +41,10 @@ PROPS["C16"] = dict(
                 + _C16_ORACLE + ", hex_vertices == documented pattern of the input up to a rotation about the first axis"),
     # (5) inherited operations
     dict(name="c16-ops", harness="C16_hex.cpp", entries=["harness_c16_ops"], units=HEXU, unwind=150, checks="none", object_bits=13,
-         shards={"quick": [{0: 0, 1: ch, 2: 0, 3: 2} for ch in range(4)],
+         shards={"quick": [{0: 0, 1: ch, 2: 0, 3: 1} for ch in range(8)],
                  "thorough": [{0: md, 1: ch, 2: gc, 3: 3} for md in range(4) for gc in (0, 1) for ch in range(4)]},
          timeout={"quick": 400, "thorough": 1200}, mem_gb=4,
-         bounds="two-hex base + ONE inherited operation (symbolic selector, 2 per query in quick, 3 in thorough) from {delete_cell 0/1, delete_face shared/bottom/side, swap_cell_indices(0,1), swap_face_indices(1,10)/(0,5), "
+         bounds="two-hex base + ONE inherited operation (symbolic selector, 3 per query in thorough; quick: 1 per query, i.e. fixed by the shard) from {delete_cell 0/1, delete_face shared/bottom/side, swap_cell_indices(0,1), swap_face_indices(1,10)/(0,5), "
                 "delete_edge(0), delete_vertex(0), swap_edge_indices(0,19), swap_vertex_indices(0,11)}; quick: first 8, immediate deletion; thorough: all 12 x 4 deletion modes x with/without collect_garbage. "
                 "Asserted for the surviving entities: face valence 4, cell valence 6, " + _C16_ORACLE),
     # (2) permuted valid halfface lists
